@@ -42,6 +42,7 @@ Fails(e) ==
       [] e.op = "cost" -> CostFails(e)
       [] e.op = "demand" -> DemandFails(e)
       [] e.op = "search" -> SearchFails(e)
+      [] e.op = "search_trace" -> SearchTraceFails(e)
       [] e.op = "maxrt" -> MaxRtFails(e)
       [] e.op = "rta" -> RtaFails(e)
       [] e.op \in {"ros2_es", "ros2_timer", "ros2_pp", "ros2_chain", "ros2_rr", "ros2_bw"} -> Ros2Fails(e)
